@@ -2,5 +2,6 @@ SPECIFICATION Spec
 CONSTANTS
   Versions <- VersionsQuick
   MaxLen = 2
-INVARIANTS Coherent OnlyNeeded Emit
+  CacheKey = "object"
+INVARIANTS Coherent OnlyNeeded EmitPool Emit
 CHECK_DEADLOCK FALSE
